@@ -1,7 +1,7 @@
 (* Exec.v -- the executable instance used by the correspondence check:
    keys and values are integers; user functions and visitors are members of a
    small named family that the Go driver implements too.  No proofs here. *)
-From CacheV Require Import Base SpecMap Client CacheModel CacheOfModel Ops.
+From CacheV Require Import Base SpecMap Client CacheModel CacheOfModel Ops SpecTTL SpecTTLExec.
 From CacheV.gen Require Import Params.
 
 Definition zeqd : forall a b : Z, {a = b} + {a <> b} := Z.eq_dec.
@@ -85,6 +85,12 @@ Definition x_newdefault (generic : bool) (now0 dflt interval : Z) (cb : list cbi
 Definition x_step (generic : bool) (zero : Z) (s : cstate Z Z) (o : cop_z)
   : cstate Z Z * cres Z Z * list (event Z Z) :=
   if generic then step_cacheof_z zero s o else step_cache_z zero s o.
+
+(* the specification itself, executable: used by the failing-input search *)
+Definition x_spec_next (zero : Z) (s : cstate Z Z) (o : cop_z) : cstate Z Z :=
+  spec_next zeqd zero s o.
+Definition x_spec_okb (zero : Z) (s : cstate Z Z) (o : cop_z) (r : cres Z Z) : bool :=
+  spec_okb zeqd zeqd zero s o r.
 
 (* decimal conversion for the driver (Z stays a Coq datatype in OCaml) *)
 Definition z_push_digit (acc : Z) (d : Z) : Z := acc * 10 + d.
